@@ -39,6 +39,9 @@ def _drop_macro_statements(text, names, log, rid):
                 k += 1
             if k < len(text) and text[k] == ";":
                 e = k + 1
+            mpath = re.search(r"(?:\b\w+::)+$", text[:s])       # a path-qualified invocation: log::trace!(..), std::println!(..)
+            if mpath:
+                s = mpath.start()
             text = text[:s] + text[e:]
             log[rid] = log.get(rid, 0) + 1
     return text
